@@ -20,6 +20,7 @@ SEG = "reassembly::segment::Segment"
 
 def run(ctx):
     prog = ctx.prog()
+    b_step(ctx, prog)
     # ---------------------------------------------------------------- B-KEY
     fh = prog.method("BufId", "from_header")
     aggs = K.aggregates(fh, "buf_id::BufId")
@@ -190,3 +191,133 @@ def run(ctx):
     (ctx.ok if ok else ctx.bad)("B-IDEMP", "B-IDEMP:Segment::receive_packet", F.call_loc(pushes[0][1]),
         "a repeated fragment is %s" % ("filtered before it is stored" if guarded else "placed by its offset") if ok else
         "every arriving piece is pushed onto the heap unconditionally and the datagram is rebuilt by concatenating the heap: a fragment that arrives twice is concatenated twice (corrupted payload)")
+
+
+def b_step(ctx, prog):
+    """Segment::receive_packet reduced to a formula (up to the concatenation loop) and compared, path by path, with the
+    bookkeeping of RFC 791's reassembly procedure: which blocks are marked, when the total length / the header are
+    recorded, what the completion test looks at, and what happens when the datagram is not yet complete."""
+    from .. import symx as S
+    rp = prog.method("Segment", "receive_packet")
+    pops = [bb for bb, t in K.calls(rp) if (F.callee_key(t) or "").endswith("::pop")]
+    ctx.require(len(pops) == 1, "B-STEP: the concatenation loop of receive_packet was not found")
+    try:
+        ex = S.Extractor(prog, (), effects=True, max_nodes=80000)
+        ex.stop = set(pops)
+        ex._params = S.params_of(rp)
+        t = ex._block(rp, 0, {i + 1: a for i, a in enumerate(S.params_of(rp))}, (), 0)
+    except S.Unsupported as e:
+        ctx.require(False, "B-STEP: receive_packet cannot be reduced to a formula (%s)" % e)
+    SELF, H, B = S.params_of(rp)
+    fld = lambda x, n: ("field", x, n)
+    FO, TL, IHL = S.lin(fld(H, "fragment_offset")), S.lin(fld(H, "total_length")), fld(H, "ihl")
+    IHL4 = S.lin(("bin", "Mul", IHL, ("const", 4)))
+
+    def add(a, b, sg=1, k=0):
+        co = dict(a[0])
+        for t_, c_ in b[0]:
+            co[t_] = co.get(t_, 0) + sg * c_
+        return (tuple(sorted(((t_, c_) for t_, c_ in co.items() if c_), key=repr)), (a[1] + sg * b[1] + k) % S.M32)
+    DATA = add(TL, IHL4, -1)                                     # TL - IHL*4
+    ceil8 = lambda l: ((("divc", add(l, ((), 0), 1, 7), 8), 1),)   # (x + 7) / 8 as a linear form with one atom
+    END = (tuple(sorted(FO[0] + ceil8(DATA), key=repr)), FO[1])
+    FO8 = (tuple((a, c * 8) for a, c in FO[0]), FO[1] * 8 % S.M32)
+    TDL_NEW = add(DATA, FO8)
+    TDL_OLD = S.lin(fld(SELF, "total_data_length"))
+    probs = []
+    npaths = 0
+
+    def paths(x, conds):
+        if x[0] == "ite":
+            yield from paths(x[2], conds + [(x[1], True)])
+            yield from paths(x[3], conds + [(x[1], False)])
+        else:
+            yield conds, x
+    for conds, leaf in paths(t, []):
+        npaths += 1
+        dup = last = fo0 = tdlnz = complete = None
+        tdl_seen = comp_args = None
+        for c, v in conds:
+            if c[0] == "call" and c[1].rsplit("::", 1)[-1] == "any":
+                dup = v
+            elif c[0] == "call" and c[1].rsplit("::", 1)[-1] == "is_last_fragment" and c[2] == (fld(H, "flags"),):
+                last = v
+            elif c[0] == "call" and c[1].rsplit("::", 1)[-1] == "may_fragment":
+                probs.append("the last-fragment test looks at DF instead of MF")
+            elif c[0] == "bin" and c[1] in ("Eq", "Ne") and ("const", 0) in (c[2], c[3]) and S.lin(c[3] if c[2] == ("const", 0) else c[2]) == FO:
+                fo0 = v if c[1] == "Eq" else not v
+            elif c[0] == "bin" and c[1] in ("Eq", "Ne") and ("const", 0) in (c[2], c[3]):
+                tdl_seen = S.lin(c[3] if c[2] == ("const", 0) else c[2])
+                tdlnz = v if c[1] == "Ne" else not v
+            elif c[0] == "call" and c[1].rsplit("::", 1)[-1] == "complete":
+                complete = v
+                comp_args = c[2]
+            else:
+                ctx.require(False, "B-STEP: unrecognised condition %s in receive_packet: no verdict" % S.term_str(c)[:100])
+        if leaf[0] != "state":
+            probs.append("a path through receive_packet changes nothing (%s)" % S.term_str(leaf)[:60])
+            continue
+        st = dict(leaf[2])
+        root, fs = S.with_fields(st.get(SELF, SELF))
+        # (9) blocks marked
+        fbk = fs.get("fragment_blocks")
+        okb = fbk is not None and fbk[0] == "upd" and fbk[1].rsplit("::", 1)[-1] == "set_range" and fbk[3][0] == fld(SELF, "fragment_blocks") and \
+            S.lin(fbk[3][1]) == FO and S.lin(fbk[3][2]) == END
+        if not okb:
+            probs.append("the received blocks are not marked as [FO, FO + (TL - IHL*4 + 7)/8): %s" % (S.term_str(fbk)[:200] if fbk else "not marked"))
+        # (8) the piece is stored unless already present
+        fr = fs.get("fragments")
+        if dup is False:
+            if not (fr is not None and fr[0] == "upd" and fr[1].rsplit("::", 1)[-1] == "push" and fr[3][0] == fld(SELF, "fragments") and fr[3][1][0] == "call"
+                    and fr[3][1][2] == (B, fld(H, "fragment_offset"))):
+                probs.append("a new piece is not stored as Fragment::new(body, fragment_offset)")
+        elif dup is True and fr is not None:
+            probs.append("a piece that is already stored is stored again")
+        # (10) total data length
+        tdl = fs.get("total_data_length")
+        if last is True and (tdl is None or S.lin(tdl) != TDL_NEW):
+            probs.append("on the last fragment the total data length is %s, RFC 791 prescribes TL - IHL*4 + FO*8" % (S.term_str(tdl) if tdl else "not recorded"))
+        if last is False and tdl is not None:
+            probs.append("the total data length is recorded from a fragment that is not the last one")
+        cur = TDL_NEW if last else TDL_OLD
+        # (11) header
+        hd = fs.get("header")
+        if fo0 is True and not (hd is not None and hd[0] == "agg" and hd[1].endswith("Option::Some") and hd[2] == (H,)):
+            probs.append("the header of the fragment with offset 0 is not kept")
+        if fo0 is False and hd is not None:
+            probs.append("the header is taken from a fragment whose offset is not 0")
+        # (12)/(13) completion test
+        if tdl_seen is not None and tdl_seen != cur:
+            probs.append("the completion test does not look at the current total data length")
+        if comp_args is not None:
+            want_n = (ceil8(cur), 0)
+            if not (comp_args[0] == fbk and S.lin(comp_args[1]) == want_n):
+                probs.append("completeness is tested as complete(%s) instead of all blocks 0..(TDL+7)/8 of the updated bitmap" % S.term_str(comp_args[1])[:120])
+        done = leaf[1][0] == "stop" or (leaf[1][0] == "agg" and leaf[1][1].endswith("Option::Some"))
+        if done:
+            if not (tdlnz is True and complete is True):
+                probs.append("a datagram is released although it is not known to be complete")
+            named = dict(leaf[1][2]) if leaf[1][0] == "stop" and len(leaf[1]) > 2 else {}
+            hloc = [v for n, v in named.items() if v[0] == "with"]
+            okh = False
+            for v in hloc:
+                r2, f2 = S.with_fields(v)
+                if set(f2) == {"total_length", "flags"} and f2["flags"][0] == "upd" and f2["flags"][1].rsplit("::", 1)[-1] == "set_is_last_fragment" and f2["flags"][3][1] == ("bool", True):
+                    tlv = S.lin(f2["total_length"])
+                    stored_ihl4 = S.lin(("bin", "Mul", ("field", r2, "ihl"), ("const", 4)))
+                    okh = tlv == add(cur, stored_ihl4)
+            if leaf[1][0] == "stop" and not okh:
+                probs.append("the released header is not the stored header with TL = TDL + IHL*4 and MF cleared")
+        else:
+            if tdlnz is True and complete is True:
+                probs.append("a complete datagram is not released")
+            ep, to = fs.get("epoch"), fs.get("timeout_seconds")
+            if not (ep is not None and ep[0] == "call" and ep[1].rsplit("::", 1)[-1] == "wrapping_add" and ep[2] == (fld(SELF, "epoch"), ("const", 1))):
+                probs.append("an incomplete arrival does not advance the epoch by one")
+            if not (to is not None and to[0] == "call" and to[1].rsplit("::", 1)[-1] == "max" and set(to[2]) == {fld(SELF, "timeout_seconds"), fld(H, "time_to_live")}):
+                probs.append("an incomplete arrival does not raise the timer to max(timer, TTL)")
+            if leaf[1] != ("variant", "core::option::Option", "None", 0) and not (leaf[1][0] in ("agg", "variant") and "None" in str(leaf[1][1:3])):
+                probs.append("an incomplete arrival returns %s instead of None" % S.term_str(leaf[1])[:60])
+    probs = sorted(set(probs))
+    (ctx.bad if probs else ctx.ok)("B-STEP", "B-STEP:Segment::receive_packet", rp.span, "; ".join(probs[:4]) if probs else
+        "RFC 791 steps (8)-(17) on all %d paths: blocks [FO, FO+(TL-IHL*4+7)/8) marked, TDL = TL-IHL*4+FO*8 on MF=0, header kept from FO=0, released iff TDL != 0 and blocks 0..(TDL+7)/8 complete with TL = TDL+IHL*4 and MF cleared, otherwise epoch+1 and timer = max(timer, TTL)" % npaths)
